@@ -1,28 +1,52 @@
-/* native replay for C09: runs the REAL __check_hmac / __check_key_bits of the
- * working tree on the counterexample (IN_alg, IN_bits) and evaluates the
- * postcondition of contract_C09_* with the same spec macros. */
+/* native replay for C09 (key-strength floor) and the C02 key-family gate:
+ * runs the REAL __check_hmac / __check_key_bits / jwt_sign of the working tree
+ * on the counterexample (IN_alg, IN_bits, IN_kty) with a recording provider
+ * table and evaluates the contract's postcondition with the same spec macros. */
 #include "jwt.c"   /* the working tree's libjwt/jwt.c, found through -I$REPO/libjwt */
 #include "spec.h"
 #include "replay.h"
+static int ops_called;
+static int rec_hmac(jwt_t *jwt, char **out, unsigned int *len, const char *str, unsigned int n)
+{ ops_called++; *out = jwt_malloc(64); memset(*out, 0x5a, 64); *len = 32; return 0; }
+static int rec_pem(jwt_t *jwt, char **out, unsigned int *len, const char *str, unsigned int n)
+{ ops_called++; *out = jwt_malloc(64); memset(*out, 0x5a, 64); *len = 64; return 0; }
+static int rec_verify(jwt_t *jwt, const char *h, unsigned int hl, unsigned char *sig, int sl) { ops_called++; return 0; }
+static struct jwt_crypto_ops rec_ops = { .name = "recorder", .provider = JWT_CRYPTO_OPS_ANY, .sign_sha_hmac = rec_hmac,
+	.sign_sha_pem = rec_pem, .verify_sha_pem = rec_verify };
 int main(int argc, char **argv)
 {
 	r_init(argc, argv);
 	const char *fn = r_str("fn", "hmac");
+	int c02 = !strcmp(r_str("prop", "C09"), "C02");
 	jwt_t jwt; jwk_item_t key;
 	memset(&jwt, 0, sizeof(jwt)); memset(&key, 0, sizeof(key));
 	jwt.key = &key;
 	jwt.alg = (jwt_alg_t)r_long("IN_alg", JWT_ALG_HS256);
 	key.bits = (size_t)r_long("IN_bits", 0);
 	key.kty = (jwk_key_type_t)r_long("IN_kty", 0);
-	int ret = !strcmp(fn, "hmac") ? __check_hmac(&jwt) : __check_key_bits(&jwt);
-	int ok = !strcmp(fn, "hmac") ? SPEC_HMAC_OK(jwt.alg, key.bits) : SPEC_ASYM_OK(jwt.alg, key.bits);
-	printf("fn=%s alg=%d (%s) bits=%zu -> ret=%d error=%d msg='%s' spec_ok=%d\n", fn, jwt.alg,
-	       jwt_alg_str(jwt.alg) ? jwt_alg_str(jwt.alg) : "?", key.bits, ret, jwt.error, jwt.error_msg, ok);
+	jwt_ops = &rec_ops;
+	int ret, ok;
+	if (!strcmp(fn, "hmac")) {
+		ret = __check_hmac(&jwt);
+		ok = c02 ? (SPEC_IS_HS(jwt.alg) && key.kty == JWK_KEY_TYPE_OCT) : SPEC_HMAC_OK(jwt.alg, key.bits);
+	} else if (!strcmp(fn, "keybits")) {
+		ret = __check_key_bits(&jwt);
+		ok = c02 ? (SPEC_IS_ASYM(jwt.alg) && key.kty == SPEC_KTY_FOR(jwt.alg)) : SPEC_ASYM_OK(jwt.alg, key.bits);
+	} else {
+		char *out = NULL; unsigned int len = 0;
+		ret = jwt_sign(&jwt, &out, &len, "a.b", 3);
+		ok = c02 ? (SPEC_IS_SIGNING(jwt.alg) && key.kty == SPEC_KTY_FOR(jwt.alg))
+			 : (SPEC_HMAC_OK(jwt.alg, key.bits) || SPEC_ASYM_OK(jwt.alg, key.bits));
+	}
+	printf("fn=%s alg=%d (%s) bits=%zu kty=%d -> ret=%d error=%d msg='%s' provider ops called=%d; spec admits=%d\n", fn, jwt.alg,
+	       jwt_alg_str(jwt.alg) ? jwt_alg_str(jwt.alg) : "?", key.bits, key.kty, ret, jwt.error, jwt.error_msg, ops_called, ok);
 	if (ret == 0 && !ok)
-		R_REPRODUCED("key below the floor accepted for %s: %zu bits", jwt_alg_str(jwt.alg), key.bits);
-	if (ret != 0 && ok)
+		R_REPRODUCED("%s: key (kty %d, %zu bits) accepted for %s", c02 ? "wrong key family" : "below the floor", key.kty, key.bits, jwt_alg_str(jwt.alg));
+	if (!ok && ops_called)
+		R_REPRODUCED("provider operation invoked with an inadmissible key");
+	if (!c02 && ret != 0 && SPEC_KTY_FOR(jwt.alg) == key.kty && (!strcmp(fn, "hmac") ? SPEC_HMAC_OK(jwt.alg, key.bits) : !strcmp(fn, "keybits") ? SPEC_ASYM_OK(jwt.alg, key.bits) : 0))
 		R_REPRODUCED("key at/above the floor refused for %s: %zu bits", jwt_alg_str(jwt.alg), key.bits);
-	if (ret != 0 && (!jwt.error || !jwt.error_msg[0]) && (!strcmp(fn, "hmac") ? SPEC_IS_HS(jwt.alg) : SPEC_IS_ASYM(jwt.alg)))
+	if (ret != 0 && (!jwt.error || !jwt.error_msg[0]) && SPEC_IS_SIGNING(jwt.alg) && strcmp(fn, "sign") == 0)
 		R_REPRODUCED("refusal without error flag/message");
 	R_NOT("real code agrees with the spec on this input");
 }
